@@ -5,6 +5,8 @@ import ArcaModel.Model.DispatchCodegen
 import ArcaModel.Model.DispatchStep
 import ArcaModel.Model.DispatchEffects
 import ArcaModel.Model.DispatchUnits
+import ArcaModel.Model.DispatchAtpClient
+import ArcaModel.Model.DispatchAtpServer
 /-
   Line-protocol driver: one JSON case per input line, one JSON result per output line.
   Runs the model's executable definitions; used by the correspondence checks.
@@ -13,7 +15,8 @@ open Lean Arca
 
 /-- every model's line-protocol handler: `op name → case → result` -/
 def handlers : List (String → Json → Option (Except String Json)) :=
-  [Arca.Dispatch.schemaHandler, Arca.Dispatch.funcHandler, Arca.Dispatch.codegenHandler, Arca.Dispatch.stepHandler, Arca.Dispatch.raceHandler, Arca.Dispatch.unitsHandler]
+  [Arca.Dispatch.schemaHandler, Arca.Dispatch.funcHandler, Arca.Dispatch.codegenHandler, Arca.Dispatch.stepHandler, Arca.Dispatch.raceHandler, Arca.Dispatch.unitsHandler,
+   Arca.Dispatch.atpClientHandler, Arca.Dispatch.atpServerHandler]
 
 partial def loop (stdin stdout : IO.FS.Stream) : IO Unit := do
   let line ← stdin.getLine
